@@ -85,6 +85,8 @@ def _render(g, order=0):
                 out.append("let x = 10;")
         elif not bare:
             out.append("%slet x = %d;" % ("pub " if g["x"][m] == "pub" else "", XV[m]))
+        if m == "c" and not bare and g.get("y", "none") != "none":
+            out.append("%slet y = 77;" % ("pub " if g["y"] == "pub" else ""))
         if m == "b" and g["t"] != "none":
             out.append("%stype T = int;" % ("pub " if g["t"] == "pub" else ""))
         if not bare:
@@ -102,7 +104,8 @@ def _render(g, order=0):
             out.append("pub fn pc() { println(\"c.p bare\"); %s%sh(); }" % ("f(); " if sees_f else "", other))
             out.append("pub fn main() { println(\"c.main\"); }")
         elif m in ("b", "c"):
-            out.append("pub fn p%s() { println(\"%s.p\", x, hist.len()); %s%sh(); }" % (m, m, "f(); " if sees_f else "", other))
+            sees_y = "println(\"b.y\", y); " if m == "b" and any(it[0] == "y" for it in imports(g, m)) else ""
+            out.append("pub fn p%s() { println(\"%s.p\", x, hist.len()); %s%s%sh(); }" % (m, m, sees_y, "f(); " if sees_f else "", other))
             # a library's own main (pub when its x is pub) is never run: only the entry module's main is
             out.append("%sfn main() { println(\"%s.main\"); }" % ("pub " if g["x"][m] == "pub" else "", m))
         else:
@@ -115,6 +118,8 @@ def _render(g, order=0):
                 body.append("pc();")
             body.append("h();")
             body.append("println(\"main.x\", x);")
+            if any(it[0] == "y" for it in imports(g, m)):
+                body.append("println(\"main.y\", y);")
             if sees_f:
                 body.append("f();")
             if any(it[0] == "T" for it in imports(g, m)):
@@ -131,6 +136,8 @@ def expected_text(out):
             ls.append("c.p bare")
         elif l[1] == "h":
             ls.append("%s.h" % l[0])
+        elif l[1] == "y":
+            ls.append("%s.y %d" % (l[0], l[2]))
         elif l[1] in ("x", "t"):
             ls.append("main.%s %d" % (l[1], l[2]))
         else:
